@@ -15,6 +15,7 @@ func init() {
 		NotDecided:  "TODO",
 		Assumptions: trustedBase,
 		Run: func(m *Model, s *Sink) {
+			m.RunIdentLiteral(s, "R-TOKPOS")  // the literal of a word token is the word
 			m.RunZeroByteMatch(s, "R-TOKPOS") // the zero value of a table entry is the end-of-input byte
 			m.RunProgress(s, "R-PROGRESS")    // a scanner reads once per end test: a second read in the same pass can pass the end of the input
 			m.RunTextFlow(s, "R-TEXT")        // the text token's literal is the bytes of its range: every byte the text scanner consumes is written
